@@ -220,6 +220,10 @@ def handleAwsOp (prev : Option PGroup) (j : Json) : OpOut × Option PGroup :=
       let m1718 := match acquiredOf oJ resps with
         | some acq =>
           (if Spec.C17.attachHolds g.id acq oJ then [] else ["C17:attach-partition"]) ++
+          -- success reported for `delta` nodes, but not all of them were brought into the group: the scale-up the
+          -- controller sized (and now locks for) is smaller than computed
+          (if oOut == "ok" && !(Spec.C17.attachHolds g.id acq oJ && Spec.C18.holds acq oJ oErr) then
+            ["C05:increase reported success although not every acquired instance was attached exactly once"] else []) ++
           (if Spec.C18.holds acq oJ oErr then [] else ["C18:leak"]) ++
           -- acquired, and then neither an attach nor a terminate call: "attaches each acquired instance" fails outright
           (if !acq.isEmpty && !oJ.any Spec.isAttachEntry &&
